@@ -88,6 +88,20 @@ func buildC09Mapped() *participle.Parser[c09Mapped] {
 	return participle.MustBuild[c09Mapped](participle.Lexer(c09MappedLex), participle.Upper("Ident"), participle.Unquote("String"))
 }
 
+// buildC09Interp: string interpolation -- the mapper of String tokens parses the text of the string with the very
+// parser it belongs to (a user function may call back into the library, from any goroutine).
+func buildC09Interp() *participle.Parser[c09Mapped] {
+	var p *participle.Parser[c09Mapped]
+	p = participle.MustBuild[c09Mapped](participle.Lexer(c09MappedLex), participle.Unquote("String"),
+		participle.Map(func(t lexer.Token) (lexer.Token, error) {
+			if inner, err := p.ParseString("inner", t.Value); err == nil {
+				t.Value = fmt.Sprintf("<%d items: %s>", len(inner.Items), strings.Join(inner.Items, ","))
+			}
+			return t, nil
+		}, "String"))
+	return p
+}
+
 func parserCalls[G any](p *participle.Parser[G]) func(kind, in string) any {
 	return func(kind, in string) any {
 		var r callResult
@@ -230,6 +244,9 @@ func materialise(o *c09Obj) (*sharedObj, string) {
 	case "mapped":
 		s.call = parserCalls(buildC09Mapped())
 		s.expect = func(kind, in string) any { return parserCalls(buildC09Mapped())(kind, in) }
+	case "interp":
+		s.call = parserCalls(buildC09Interp())
+		s.expect = func(kind, in string) any { return parserCalls(buildC09Interp())(kind, in) }
 	case "fresh-sexpr":
 		// a parser with static types built for this workload alone, so that derived parsers (ParserForProduction)
 		// are used for the first time while other goroutines use the parent
@@ -368,6 +385,10 @@ func checkC09(c *c09Case, r *vstat.Run) outcome {
 		}
 	}); m != "" {
 		pm = m
+	}
+	if strings.Contains(pm, "the call is blocked") {
+		// not a slow call: a call that waits for something that never happens, with nobody else using the object
+		return violationf("deadlock", "a call on an object used alone never returns: %s\nworkload %s", pm, firstN(mustJSON(c), 3000))
 	}
 	if pm != "" {
 		if r != nil {
@@ -591,8 +612,11 @@ func TestC09(t *testing.T) {
 				o.Kind = "fresh-sexpr"
 				o.Inputs = []string{`1 (2 3) 4`, `(define (f x) (g x "s" #y))`, `[a : 1] #(1 2)`, `(1 (2`, ``}
 			default:
-				o.Kind = "mapped"
+				o.Kind = rapid.SampledFrom([]string{"mapped", "interp"}).Draw(t, "mappedkind")
 				o.Inputs = c09MappedInputs
+				if o.Kind == "interp" {
+					o.Inputs = append([]string{`say "hello world 1" twice`, `"a \"b c\" d" "x"`}, c09MappedInputs...)
+				}
 			}
 			if o.Kind != "rules" && o.Kind != "ebnf" && len(o.Inputs) > 0 {
 				// an input with something after a complete parse (what AllowTrailing is about)
